@@ -306,7 +306,7 @@ func init() {
 		Mutant{ID: "merge1-array-no-tail-zeroing", Props: []string{"C14"}, File: "arshal_default.go", Func: "makeArrayArshaler",
 			Old: "\t\t\tfor ; i < n; i++ {\n\t\t\t\tva.Index(i).SetZero()\n\t\t\t\terr = errArrayUnderflow\n\t\t\t}", New: "\t\t\tif i < n {\n\t\t\t\terr = errArrayUnderflow\n\t\t\t}", Rule: "MERGE-1"},
 		Mutant{ID: "anypath-unmarshal-drops-isnil", Props: []string{"C14", "C03"}, File: "arshal_default.go", Func: "makeInterfaceArshaler",
-			Old: "\t\tvar v addressableValue\n\t\tif va.IsNil() {\n\t\t\t// Optimize for the any type if there are no special options.", New: "\t\tvar v addressableValue\n\t\tif va.IsNil() || va.Elem().Kind() == reflect.Map {\n\t\t\t// Optimize for the any type if there are no special options.", Rule: "ANYPATH-1"},
+			Old: "\t\tvar v addressableValue\n\t\tif va.IsNil() || isSelfPointer(va) {\n\t\t\t// Optimize for the any type if there are no special options.", New: "\t\tvar v addressableValue\n\t\tif va.IsNil() || isSelfPointer(va) || va.Elem().Kind() == reflect.Map {\n\t\t\t// Optimize for the any type if there are no special options.", Rule: "ANYPATH-1"},
 		Mutant{ID: "anypath-unmarshal-drops-fromany", Props: []string{"C03", "C17"}, File: "arshal_default.go", Func: "makeInterfaceArshaler",
 			Old: "\t\t\t\t(uo.Unmarshalers == nil || !uo.Unmarshalers.(*Unmarshalers).fromAny) {", New: "\t\t\t\ttrue {", Rule: "ANYPATH-1"},
 		Mutant{ID: "anypath-any-float32", Props: []string{"C03"}, File: "arshal_any.go", Func: "unmarshalValueAny",
